@@ -2,8 +2,11 @@ package props
 
 import (
 	"bytes"
+	"compress/gzip"
+	"compress/zlib"
 	"encoding/base64"
 	"fmt"
+	"io"
 	"math"
 	"reflect"
 	"runtime"
@@ -28,6 +31,10 @@ type C12Case struct {
 	Kind     string `json:"kind"`    // response | LogoutRequest | LogoutResponse
 	Level    int    `json:"level"`
 	Relation string `json:"relation"` // L-1, L, L+1, 2L, 64L, 1000L, bomb
+	// Envelope: the DEFLATE stream travels inside a zlib (RFC 1950) or gzip (RFC 1952) envelope — what PHP's
+	// gzcompress / a careless toolkit sends. The library promises raw DEFLATE only, so nothing is expected of such a
+	// message within the limit; beyond the limit it is refused within the memory bound like any other.
+	Envelope string `json:"envelope,omitempty"`
 }
 
 func effLimit(l int64) int64 {
@@ -166,6 +173,9 @@ func genC12(t *rapid.T) C12Case {
 		c.Size = capSize
 	}
 	c.Payload = rapid.SampledFrom([]string{"valid-padded", "valid-padded", "valid-ws-padded", "run", "valid-nul-padded", "valid-ff-padded", "valid-bom-padded"}).Draw(t, "payload")
+	if rapid.IntRange(0, 5).Draw(t, "envelope") == 0 {
+		c.Envelope = rapid.SampledFrom([]string{"zlib", "gzip"}).Draw(t, "envelopeKind")
+	}
 	return c
 }
 
@@ -258,6 +268,23 @@ func checkC12(c C12Case) h.Outcome {
 	o.Classes = []string{fmt.Sprintf("limit:%d", c.Limit), "rel:" + c.Relation, "payload:" + c.Payload, "kind:" + c.Kind, fmt.Sprintf("level:%d", c.Level)}
 	raw := c.payload()
 	comp := h.Deflate(raw, c.Level)
+	if c.Envelope != "" {
+		var buf bytes.Buffer
+		var w io.WriteCloser
+		lvl := c.Level
+		if lvl < -1 {
+			lvl = -1
+		}
+		if c.Envelope == "zlib" {
+			w, _ = zlib.NewWriterLevel(&buf, lvl)
+		} else {
+			w, _ = gzip.NewWriterLevel(&buf, lvl)
+		}
+		w.Write(raw)
+		w.Close()
+		comp = buf.Bytes()
+		o.Classes = append(o.Classes, "envelope:"+c.Envelope)
+	}
 	rawIn := base64.StdEncoding.EncodeToString(raw)
 	compIn := base64.StdEncoding.EncodeToString(comp)
 	ratio := float64(len(raw)) / float64(len(comp)+1)
@@ -295,6 +322,9 @@ func checkC12(c C12Case) h.Outcome {
 				o.Classes = append(o.Classes, "alloc-bounded")
 			}
 			continue
+		}
+		if c.Envelope != "" {
+			continue // not raw DEFLATE: nothing promised within the limit
 		}
 		// within the limit: identical to the raw presentation
 		res2, err2 := e.f(spc.Build(), rawIn)
@@ -382,6 +412,12 @@ func TestC12_Grid(t *testing.T) {
 			}
 			if kind == "response" || h.Thorough() {
 				cases = append(cases, C12Case{Limit: l, Size: bomb, Payload: "run", Kind: kind, Level: 9, Relation: "bomb"})
+			}
+			if l == 0 || l == 1024 || h.Thorough() {
+				for _, env := range []string{"zlib", "gzip"} {
+					cases = append(cases, C12Case{Limit: l, Size: bomb, Payload: "run", Kind: kind, Level: 9, Relation: "bomb", Envelope: env},
+						C12Case{Limit: l, Size: bomb, Payload: "valid-padded", Kind: kind, Level: 6, Relation: "bomb", Envelope: env})
+				}
 			}
 		}
 	}
